@@ -8,7 +8,11 @@ pub fn push_registers<T: InterpreterTrait>(interpreter: &mut T) {
 }
 
 pub fn pop_registers<T: InterpreterTrait>(interpreter: &mut T) {
-    interpreter.register_stack().pop();
+    // the first frame is never removed (the end of a FOR loop body can be reached
+    // without having entered the loop, e.g. by RESUME NEXT after an error in the FOR statement)
+    if interpreter.register_stack().len() > 1 {
+        interpreter.register_stack().pop();
+    }
 }
 
 pub fn load_into_a<T: InterpreterTrait>(interpreter: &mut T, v: &Variant) {
